@@ -70,6 +70,14 @@ def run_gen(case, bus, ex):
         ok_shape = u.shape == (Cexp,) + (N,) * D
         bus.judge("shape_channels", 0.0 if ok_shape else 1.0, 0.5, sig, sample=dict(info, shape=list(u.shape)), witness=dict(winfo, shape=list(u.shape), expected=[Cexp] + [N] * D),
                   msg="" if ok_shape else f"shape {u.shape}, expected {(Cexp,) + (N,) * D}")
+        if not np.all(np.isfinite(u)) and ("inner" not in spec) and (spec["kw"].get("std_one") or spec["kw"].get("max_one")):
+            # unit-std / unit-max of a constant draw is undefined (0/0): classify with the un-normalised twin of the same key
+            twin = dict(name=spec["name"], kw={k: v for k, v in spec["kw"].items() if k not in ("std_one", "max_one")})
+            raw = np.asarray(iczoo.build(ex, D, twin)(N, key=key))
+            if np.all(np.isfinite(raw)) and float(np.max(raw) - np.min(raw)) <= 1e-14 * (1 + float(np.max(np.abs(raw)))):
+                bus.outside("finite", "degenerate draw: the un-normalised field is constant, unit std / unit max undefined")
+                bus.observe("O6 normalisation of a constant draw gives NaN", dict(generator=spec, D=D, N=N, key=ki))
+                continue
         bus.judge("finite", 0.0 if np.all(np.isfinite(u)) else 1.0, 0.5, sig, witness=winfo)
         u2 = np.asarray(gen(N, key=key))
         bus.judge("deterministic", 0.0 if np.array_equal(u, u2) else 1.0, 0.5, sig + ("same key",), witness=winfo)
